@@ -273,7 +273,15 @@ def px_conformance(agg, prop, tier, features=(), cfgflags=None):
                         viol.append({"prop": m["prop"], "oracle": "rustc-conformance:" + m["kind"], "msg": "compiled with the real macros, case %s: got %s, expected %s" % (m["case"], m.get("got"), m.get("want")),
                                      "program": json.dumps(c)})
                 if rc != 0:
-                    raise MachineryError("conformance binary %s died with rc=%s: %s" % (b, rc, (err or "")[-500:]))
+                    # Every case runs under catch_unwind, so a dying runner is an abort or a signal inside a client program that
+                    # is #![forbid(unsafe_code)]: if it dies the same way when run again, that is the library's doing (a verdict);
+                    # anything else stays a machinery error - and never pre-empts violations already reported.
+                    rc2, out2, err2 = run([b], timeout=600)
+                    if rc2 == rc and (rc < 0 or rc in (101, 132, 134, 136, 139)):
+                        last = [l for l in out.splitlines() if l.lstrip().startswith("{")][-1:]
+                        viol.append({"prop": prop, "oracle": "rustc-conformance:client-program-crashed", "msg": "conformance binary %s (well-formed programs, #![forbid(unsafe_code)], compiled with the real macros) dies with rc=%s on every run; last report line before the death: %s; stderr: %s" % (os.path.basename(b), rc, last, (err or "")[-300:]), "program": os.path.basename(b)})
+                    elif not viol:
+                        raise MachineryError("conformance binary %s died with rc=%s (rc=%s when run again): %s" % (b, rc, rc2, (err or "")[-500:]))
         if not viol and done != info["positive_cases"]:
             raise MachineryError("conformance: %d of %d cases reported completion" % (done, info["positive_cases"]))
     fcntl.flock(tgt_lock, fcntl.LOCK_UN)
